@@ -42,6 +42,13 @@ TAGS = {
     "<id>": ["a", "b", "c"],
     "<text>": ["x", "y", "x<text>"],
 }
+# unit chains and bracketing recursion: connecting trees have the same labels as the chains they replace
+CHAIN = {
+    "<start>": ["<A>"],
+    "<A>": ["<B>", "(<A>)", "<B>+<A>"],
+    "<B>": ["<C>"],
+    "<C>": ["c", "[<A>]"],
+}
 ASSGN = {
     "<start>": ["<stmt>"],
     "<stmt>": ["<assgn> ; <stmt>", "<assgn>"],
@@ -64,15 +71,43 @@ def reach(c, a):
     return seen
 
 
+def chain_tree(rng, c, nt, ids):
+    """an inserted tree with a single-child chain ending in an open leaf below a multi-child node, e.g.
+    <elem>(<open>?, <inner>(<elem>(<leaf>?)), <close>?): context addition rebuilds such chains with connecting trees"""
+    def chain(sym, depth):
+        units = [alt for alt in c.get(sym, []) if len(alt) == 1 and alt[0] in c]
+        if depth <= 0 or not units:
+            return (ids(), sym, None)
+        return (ids(), sym, [chain(rng.choice(units)[0], depth - 1)])
+
+    multis = [alt for alt in c.get(nt, []) if len(alt) >= 2 and any(s in c for s in alt)]
+    if not multis:
+        t = chain(nt, rng.randint(1, 3))
+        return t if t[2] is not None else None
+    alt = rng.choice(multis)
+    kids = []
+    for s in alt:
+        if s in c:
+            kids.append(chain(s, rng.randint(0, 3)))
+        else:
+            kids.append((ids(), s, []))
+    return (ids(), nt, kids)
+
+
 def gen_case(ctx: Ctx):
     rng = ctx.rng
     r = rng.random()
-    if r < 0.25:
+    if r < 0.12:
+        g, gname = CHAIN, "chain"
+    elif r < 0.25:
         g, gname = ASSGN, "assgn"
     elif r < 0.5:
         g, gname = TAGS, "tags"
-    else:
+    elif r < 0.75:
         g, gname = G.gen_acyclic_grammar(rng, eps_prob=0.1, no_unit=True, terminals=("a", "b", "0", "x", " ", ";")), "random"
+    else:
+        # with unit alternatives: single-child chains in host and inserted trees
+        g, gname = G.gen_acyclic_grammar(rng, eps_prob=0.1, no_unit=False, terminals=("a", "b", "0", "x", " ", ";")), "random-unit"
     c = G.canon(g)
     ids = T.IdGen()
     host = T.gen_tree(rng, c, "<start>", rng.randint(2, 7), ids)
@@ -91,7 +126,9 @@ def gen_case(ctx: Ctx):
     nt = rng.choice(nts)
     ins_ids = T.IdGen(10_000)
     ins = T.gen_tree(rng, c, nt, rng.randint(1, 4), ins_ids)
-    if rng.random() < 0.35:
+    if rng.random() < 0.25:
+        ins = chain_tree(rng, c, nt, ins_ids) or ins
+    elif rng.random() < 0.35:
         ins = T.cut_open(rng, ins, p_cut=0.4)
     if rng.random() < 0.1:
         ins = (ins[0], ins[1], None)
@@ -157,7 +194,7 @@ def run_case(ctx: Ctx, case: Dict[str, Any]):
     any_bad_valid = False
     for p, a in zip(plains, answers):
         ctx.evaluations += 1
-        names = ["valid-derivation-tree", "same-root", "host-nodes-kept", "contains-inserted-tree"]
+        names = ["valid-derivation-tree", "same-root", "host-nodes-kept-with-their-expansion", "contains-inserted-tree"]
         bad = [n for n, ok in zip(names, a[:4]) if ok is not True]
         if outcome != "ok":
             # candidates seen by the validity assertion: only validity is judged here (rejected candidates are not results)
@@ -204,7 +241,7 @@ def run(ctx: Ctx):
     if not os.path.exists(os.path.join(ROOT, "lean", ".lake", "build", "bin", "isladrv")):
         return "infra"
     logging.disable(logging.CRITICAL)
-    n = 350 if ctx.tier == "quick" else 8000
+    n = 1200 if ctx.tier == "quick" else 20000
     for case in corpus_cases():
         run_case(ctx, case)
     for _ in range(n):
